@@ -366,7 +366,58 @@ def r17_10(ctx):
     ctx.floor('R17.10', 'returns of bspline.interpolate', n, 1)
 
 
+def r17_11(ctx):
+    """Interpolation nodes supplied by the caller are used in the caller's ORDER: a value array f is given in that order, so
+    sorting (or de-duplicating) the nodes pairs collocation rows with the wrong data."""
+    n = 0
+    for q in (AP + '.interpolate', B + '.interpolate'):
+        f = ctx.prog.maybe_func(q)
+        if f is None:
+            continue
+        n += 1
+        bad = [c for c in ast.walk(f.node) if isinstance(c, ast.Call) and (call_name(c) or '') in ('np.sort', 'sorted', 'np.unique', 'np.argsort', 'np.flip')
+               and any(isinstance(x, ast.Name) and x.id in ('nodes', 'nd') for a_ in c.args for x in ast.walk(a_))
+               and any(isinstance(x, ast.Name) and x.id == 'nodes' for x in ast.walk(resolve.stmt_of(c)))]
+        srt = [c for c in ast.walk(f.node) if isinstance(c, ast.Call) and isinstance(c.func, ast.Attribute) and c.func.attr == 'sort' and 'nodes' in src(c.func.value)]
+        if bad or srt:
+            c = (bad or srt)[0]
+            ctx.violated('R17.11', f.qual, src(resolve.stmt_of(c))[:90], c,
+                         'the node grid passed by the caller is reordered: a value array given for a non-ascending grid (Chebyshev points from '
+                         'cos(linspace(0, pi, n))) is matched with collocation rows of OTHER points -- the interpolant neither matches the data nor '
+                         'reproduces splines (errors ~ 0.8)')
+        else:
+            ctx.met('R17.11', f.qual, 'nodes used as passed', f.node)
+    ctx.floor('R17.11', 'interpolation routines', n, 2)
+
+
+def r17_12(ctx):
+    """inner_products / integrate evaluate f at the tensor GAUSS GRID itself -- the grid the quadrature weights and the collocation
+    matrices belong to -- not at a modified copy (clipped, shifted, reordered axes)."""
+    n = 0
+    for q in ('pyiga.assemble.inner_products', 'pyiga.assemble.integrate'):
+        f = ctx.prog.func(q)
+        nodes = [f.node] + [m.node for m in ctx.prog.funcs_in('pyiga.assemble') if m.name.startswith('_') and any(
+            isinstance(c, ast.Call) and (call_name(c) or '').split('.')[-1] == m.name for c in ast.walk(f.node))]
+        for nd in nodes:
+            for c in ast.walk(nd):
+                if isinstance(c, ast.Call) and (call_name(c) or '').split('.')[-1] in ('grid_eval', 'grid_eval_transformed') and len(c.args) >= 2:
+                    n += 1
+                    g = resolve.expand(c.args[1], c, keep=('gaussgrid',))
+                    t = src(g).replace(' ', '')
+                    ok = t == 'gaussgrid' or t.startswith('make_tensor_quadrature(')
+                    changed = any(isinstance(x, ast.Call) and (call_name(x) or '') in ('np.clip', 'np.minimum', 'np.maximum', 'np.sort', 'reversed', 'np.flip')
+                                  for x in ast.walk(g))
+                    ctx.decide('R17.12', q, src(c)[:90], True if ok else (False if changed else None), c,
+                               'f sampled at the quadrature nodes' if ok else
+                               'f is sampled at `%s`, not at the Gauss nodes the weights belong to: the load vector is the quadrature of a different '
+                               'function (on a non-cubical parameter domain with f_physical=True the projection differs from that of the pull-back '
+                               'by O(1))' % t[:100], definite=True)
+    ctx.floor('R17.12', 'evaluations of f on the Gauss grid', n, 4)
+
+
 def run(ctx):
+    r17_11(ctx)
+    r17_12(ctx)
     r17_10(ctx)
     # R17.9 = R09.8: quadrature rules are fresh arrays (consumers scale the weights in place); a memo that hands out stored
     # rules pollutes every later mass matrix / load vector with the same mesh and node count
